@@ -40,6 +40,7 @@ theorem handleChunk_stStep (e : Ep) (ch : Chunk) : StStep e.st (handleChunk e ch
   | shutdown c => exact handleShutdown_stStep e c
   | shutdownAck => simp only [handleChunk, handleShutdownAck, StStep]; split <;> simp
   | shutdownComplete => simp only [handleChunk, handleShutdownComplete, StStep]; split <;> simp
+  | abort => simp [handleChunk, close, StStep]
 theorem handlePkt_stStep (e : Ep) (p : Pkt) : StStep e.st (handlePkt e p).st := by
   have hf : ∀ (p : Pkt) (e : Ep), StStep e.st (p.foldl handleChunk e).st := by
     intro p
@@ -62,8 +63,10 @@ theorem gather_stStep (e : Ep) (d : List (List (Nat × Nat))) : StStep e.st (gat
       first | exact StStep.refl _ | (have := advance_stStep (sendData e d).1 e.st; rw [sendData_st] at this; exact this)
   simp only [gather]
   split
-  · rw [gatherShut_st]; exact StStep.refl _
-  · have := hS (gatherPrio e).1; rw [hP] at this; exact this
+  · exact StStep.refl _
+  · split
+    · rw [gatherShut_st]; exact StStep.refl _
+    · have := hS (gatherPrio e).1; rw [hP] at this; exact this
 
 theorem writeLoopPass_stStep (e : Ep) (d : List (List (Nat × Nat))) : StStep e.st (writeLoopPass e d).1.st := by
   simp only [writeLoopPass]
@@ -97,6 +100,8 @@ theorem step_stStep (s : Sys) (op : Op) (x : Bool) : StStep (s.ep x).st ((s.step
   | ackt y => exact hput y _ _ (by rw [show (ackFire (s.ep y)).st = (s.ep y).st from congrArg (fun c => c.2.1) (ackFire_core _)]; exact StStep.refl _)
   | read y sid => exact hput y _ _ (StStep.refl _)
   | closeConn y => exact hput y _ _ (by simp only [closeConn, StStep]; split <;> simp)
+  | closeApi y => exact hput y _ _ (by simp only [closeApi, StStep]; split <;> simp)
+  | abort y => exact hput y _ _ (StStep.refl _)
 
 /-- reachable states are CLOSED, ESTABLISHED or one of the four shutdown states -/
 theorem run_stRange (ops : List Op) (x : Bool) :
